@@ -266,8 +266,9 @@ class Ref:
             lo_t, hi_t = toint(lo), toint(hi)
             n = hi_t - lo_t
             ns = z3.simplify(n)
-            if "range_end_before_loop" in self.patches and not z3.is_int_value(z3.simplify(hi_t)):
-                pass
+            if "range_computed_bound_unspecified" in self.patches and not (
+                    z3.is_int_value(z3.simplify(hi_t)) and z3.is_int_value(z3.simplify(lo_t))):
+                self.unspec.append(g)
             if z3.is_int_value(ns):
                 cap = max(ns.as_long(), 0)
                 if cap > 64:
